@@ -5,6 +5,16 @@ HERE = os.path.dirname(os.path.dirname(os.path.abspath(__file__)))
 
 CLAIMED = {
  # id: (level, technique, text, note, design_ref)
+ "C18": ("fault_enumeration",
+         "deterministic simulation with the entropy source as the schedule: exhaustive breadth-first enumeration of entropy tapes for small ranges with exact pre-image counting; boundary, stuck and periodic tapes plus a pigeonhole collision probe at cryptographic sizes",
+         "For every configuration of a fixed grid (Integer.random_range for every bound up to 300 [1100 thorough] and all three back-ends, Integer.random, number.getRandom*, StrongRandom getrandbits/randrange/randint/choice/shuffle/sample) the whole tree of entropy tapes is enumerated (every value of every byte requested; retries after a rejection sampled two levels deep) and pre-images are counted exactly: out-of-range values, unequal first-attempt counts, or an imbalance that no completion of the unexplored retry mass could repair are violations. At cryptographic sizes (curve orders, DSA q, RSA moduli; ECC.generate, DSS nonces, blinding) boundary/stuck/periodic tapes decide bounds, dependence on the tape alone (global entropy varied between repetitions), termination, and a pigeonhole probe detects folding of out-of-range candidates. Exhaustive over the stated grid for the first attempt; sampled beyond.",
+         "Uniformity is exact only for the enumerated small ranges; at cryptographic sizes only bounds, determinism, termination and absence of candidate folding are decided. The first-attempt criterion reads the property's own wording (a rejection sampler) as licence to condition on 'no draw rejected'.",
+         "DESIGN.md section 4 (C18)"),
+ "C20": ("exploration",
+         "deterministic simulation: dealer / share-holders / combiner with an entropy tape and a lossy, reordering, duplicating share network, against an independent GF(2^128) model",
+         "Seeded deals split(k, n, secret, ssss) for 2 <= k <= n <= 12 (up to k = 40, n = 255 in a fraction of runs) under seeded and adversarial coefficient tapes; the polynomial interpolated through k shares with an independent field implementation must pass through all shares, have the secret as constant term and exactly the tape's 16-byte blocks as other coefficients; k-subsets chosen, reordered and duplicated (identical or corrupted copy) by the simulated network must recombine to the secret or be refused; _Element arithmetic is compared with the model on every operand visited. Sampling, not proof.",
+         "Trusted: refs/gf128.py (self-checked field laws, inverse verified by multiplication). Field laws are decided on visited operands only, not for all 2^128 elements.",
+         "DESIGN.md section 4 (C20)"),
  "C15": ("exploration",
          "deterministic simulation: senders, receivers and a faulty network (loss, replay, reorder, corruption, splice) checked against an independent RFC 9180 context model; bounded liveness after faults stop",
          "Seeded search over HPKE histories: 1-2 sessions over all 5 KEMs x 3 AEADs x 4 modes, receiver-side set-up faults (enc bit flips, truncation, re-encoding of the same point, wrong info/PSK/sender/receiver key), sequences of seal() whose ciphertexts must equal the model's byte for byte, deliveries with loss, replay, reordering, bit flips, truncation, extension, AAD substitution and cross-session splices judged by the model's ContextR.Open (sequence number unchanged on failure), wrong-direction calls, sequence exhaustion, and final in-order drains that must all open once faults stop; plus invalid set-ups that must be refused. Sampling, not proof.",
